@@ -20,6 +20,7 @@ case $variant in
   v2) cc=gcc;   flags="-O2 -g -DMYTH_VERIF" ;;
   va) cc=clang; flags="-O1 -g -fsanitize=address,undefined -fno-sanitize=signed-integer-overflow,alignment -fno-omit-frame-pointer -DMYTH_VERIF" ;;
   c0) cc=clang; flags="-O0 -g -DMYTH_VERIF" ;;
+  c2) cc=clang; flags="-O2 -g -DMYTH_VERIF" ;;
   n0) cc=gcc;   flags="-O0 -g" ;;
   n2) cc=gcc;   flags="-O2 -g" ;;
   ld) cc=gcc;   flags="-O0 -g -DMYTH_VERIF"; wrap=MYTH_WRAP_LD; extra_srcs="myth_wrap_pthread.c myth_wrap_malloc.c myth_wrap_socket.c" ;;
